@@ -253,6 +253,55 @@ func GateOf(b *Bool) (string, bool) {
 	return ValKey(&u), b.Neg
 }
 
+// decideByGuards decides a comparison the intervals leave open when the branch
+// outcomes already in force on this path settle it: both are reduced to canonical
+// propositions (so `v != 0` taken earlier decides a later `v == 1` for a 0/1 value,
+// whichever variable or cell the value is read from).
+func (ip *Interp) decideByGuards(st *State, cb *Bool) Tri {
+	if cb.Cmp == nil || st == nil {
+		return TriTop
+	}
+	gl := ip.PathGuardList(st)
+	if len(gl) == 0 {
+		return TriTop
+	}
+	bc := &BoolCtx{Conds: ip.In.Conds}
+	e := bc.CmpExpr(cb.Cmp)
+	vars := map[string]bool{}
+	e.CollectVars(vars)
+	if len(vars) == 0 || len(vars) > 4 {
+		return TriTop
+	}
+	env := map[string]bool{}
+	for _, g := range gl {
+		if g.Cmp == nil {
+			continue
+		}
+		ge := bc.CmpExpr(g.Cmp)
+		val := g.Outcome
+		for ge.Op == "not" {
+			ge, val = ge.A[0], !val
+		}
+		if ge.Op == "var" && vars[ge.V] {
+			env[ge.V] = val
+		}
+	}
+	if len(env) == 0 {
+		return TriTop
+	}
+	r := e.Assign(env)
+	rest := map[string]bool{}
+	r.CollectVars(rest)
+	if len(rest) > 0 {
+		return TriTop
+	}
+	out := r.Eval(nil) != cb.Neg
+	if out {
+		return TriT
+	}
+	return TriF
+}
+
 // PathGuards returns the undecided branch conditions (key -> outcome) in force at
 // the current point over the whole call stack: those of the innermost activation and
 // those that held at each enclosing call site.
@@ -801,6 +850,9 @@ func (ip *Interp) Call(fn *ssa.Function, args []Val, bind []Val, st *State) (res
 				if cb != nil {
 					k = cb.K
 				}
+				if k == TriTop && cb != nil {
+					k = ip.decideByGuards(cur, cb)
+				}
 				if k == TriTop && ip.Hooks.Branch != nil && cb != nil {
 					ip.Hooks.Branch(ip, cb, t)
 				}
@@ -983,6 +1035,13 @@ func (ip *Interp) runPath(fn *ssa.Function, act *activation, st *State, prev, b 
 			switch t := instr.(type) {
 			case *ssa.If:
 				cb, _ := ip.get(act, cur, t.Cond).(*Bool)
+				if cb != nil && cb.K == TriTop {
+					if k := ip.decideByGuards(cur, cb); k != TriTop {
+						c2 := *cb
+						c2.K = k
+						cb = &c2
+					}
+				}
 				switch {
 				case cb != nil && cb.K == TriT:
 					next = b.Succs[0]
